@@ -72,7 +72,7 @@ def resolve_literal(d, n, depth=0):
 def literal_locals(d, fn):
     out = {}
     for v in ir.walk_expr(fn):
-        if v.get("kind") == "VarDecl" and ir.ekids(v) and "char" in ir.qtype(v) and "*" in ir.qtype(v):
+        if v.get("kind") == "VarDecl" and ir.ekids(v) and "char" in ir.qtype(v) and ("*" in ir.qtype(v) or "[" in ir.qtype(v)):
             lit = resolve_literal(d, ir.ekids(v)[-1])
             if lit is not None and "\\" not in lit:
                 out[v.get("id")] = lit
@@ -134,6 +134,19 @@ def loop_env(fn):
     return env
 
 
+def unbounded_var(d, idx, env):
+    n = ir.strip(idx)
+    while n.get("kind") in ("ImplicitCastExpr", "CXXStaticCastExpr", "CXXFunctionalCastExpr", "CStyleCastExpr", "ParenExpr") and ir.ekids(n):
+        n = ir.strip(ir.ekids(n)[-1])
+    if n.get("kind") != "DeclRefExpr":
+        return False
+    rid = (n.get("referencedDecl") or {}).get("id")
+    if rid in env:
+        return False
+    tr = trange.type_range(ir.qtype(n))
+    return tr is not None and tr[1] - tr[0] >= 2 ** 31
+
+
 def rule_index(rep, d, fns):
     rep.rule("C13.index", "every subscript of a fixed-extent table (std::array<int,256>, the 65-byte alphabet literal) has an "
                           "index whose type-derived interval lies inside the extent")
@@ -159,6 +172,10 @@ def rule_index(rep, d, fns):
             label = re.sub(r'"[^"]*"', '"<alphabet>"', txt)
             if 0 <= iv[0] and iv[1] <= ext - 1:
                 rep.holds("C13.index", fn["name"], label, where=d.where(node), detail="index in [%d,%d], extent %d" % (iv[0], iv[1], ext))
+            elif unbounded_var(d, idx, env):
+                # the index is a plain variable / parameter whose bound is a matter of the surrounding loop or of the callers, not of its type:
+                # nothing is known - that is not the same as knowing it can be out of range
+                rep.inconclusive("C13.index", fn["name"], label, where=d.where(node), detail="the index is a variable whose range is not derivable from its type or a recognised loop")
             else:
                 rep.violates("C13.index", fn["name"], label, where=d.where(node),
                              detail="index expression `%s` ranges over [%d,%d] but the table has %d elements" % (
@@ -207,10 +224,14 @@ def rule_alpha(rep, d, dec, enc, helpers=()):
         rep.violates("C13.alpha", enc["name"], "pad character", where=d.where(bad), detail="pads with character code %s, not '='" % bad.get("value"))
     # padding to a multiple of 4
     mods = [t for t in (ir.sx(n) for n in ir.walk_expr(enc) if n.get("kind") == "BinaryOperator" and n.get("opcode") == "%")]
-    if any(t[3] == ("lit", "4") for t in mods):
+    out_mods = [t for t in mods if any(x[0] == "call" and x[1][0] == "mem" and x[1][2] in ("size", "length") and uncast(x[1][1])[0] == "ref" and uncast(x[1][1])[1] not in [p_.get("name") for p_ in ir.params(enc)]
+                                      for x in ir.subterms(t) if isinstance(x, tuple))]
+    if any(uncast(t[3]) == ("lit", "4") for t in mods):
         rep.holds("C13.alpha", enc["name"], "pads to a multiple of 4")
+    elif out_mods:
+        rep.violates("C13.alpha", enc["name"], "pads to a multiple of 4", where=d.where(enc), detail="the output length is taken modulo something other than 4: " + str([ir.show(m) for m in out_mods]))
     else:
-        rep.violates("C13.alpha", enc["name"], "pads to a multiple of 4", where=d.where(enc), detail="no `% 4` padding condition found: " + str([ir.show(m) for m in mods]))
+        rep.inconclusive("C13.alpha", enc["name"], "pads to a multiple of 4", where=d.where(enc), detail="no `output.size() % 4` padding condition (a padding count derived from the input length needs a different argument)")
     # decode table construction
     fills = []
     seen_fill = set()
@@ -462,6 +483,27 @@ def rule_acc(rep, d, dec, enc):
     for fn, nin, nout in ((dec, 6, 8), (enc, 8, 6)):
         c = consts(fn)
         name = fn["name"]
+        if not c["init"]:
+            # no counter that starts negative: a different (equally valid) bookkeeping of the pending bits - the constants below do not apply
+            rep.inconclusive("C13.acc", name, "accumulator scheme", where=d.where(fn), detail="the `valb` scheme (counter starting at -%d) is not used here" % nout)
+            continue
+        # the tail group must not depend on the accumulated VALUE (zero bits are data too)
+        if fn is enc:
+            accs = set()
+            for n_ in ir.walk_expr(fn):
+                if n_.get("kind") == "BinaryOperator" and n_.get("opcode") == "=":
+                    t_ = ir.sx(n_)
+                    x_, r_ = uncast(t_[2]), uncast(t_[3])
+                    if x_[0] == "ref" and r_[0] == "bin" and r_[1] in ("+", "|", "&") and any(y == ("bin", "<<", x_, y2) for y in ir.subterms(r_) for y2 in [y[3] if isinstance(y, tuple) and len(y) == 4 else None] if isinstance(y, tuple) and len(y) == 4 and y[0] == "bin" and y[1] == "<<" and uncast(y[2]) == x_):
+                        accs.add(x_[1])
+            for n_ in ir.walk_expr(fn):
+                if n_.get("kind") == "IfStmt":
+                    ct = ir.sx(ir.ekids(n_)[0])
+                    body_has_tail = any(x.get("kind") == "BinaryOperator" and x.get("opcode") == "&" and any(y[0] == "bin" and y[1] == ">>" and uncast(y[2])[0] == "bin" and uncast(y[2])[1] == "<<"
+                                                                                                              for y in ir.subterms(ir.sx(x)) if isinstance(y, tuple)) for x in ir.walk_expr(ir.ekids(n_)[1]))
+                    if body_has_tail and any(y[0] == "ref" and y[1] in accs for y in ir.subterms(ct) if isinstance(y, tuple)):
+                        rep.violates("C13.acc", name, "tail group", where=d.where(n_),
+                                     detail="the last group is emitted only if `%s`: whether pending bits exist depends on how many bytes were consumed, not on their value (trailing zero bits are lost)" % ir.show(ct)[:60])
         checks = [
             ("shift-in width", c["shift_in"], {nin}),
             ("counter increment", c["count_add"], {nin}),
@@ -517,6 +559,9 @@ def rule_acc(rep, d, dec, enc):
         else:
             if any(op != ">=" or v is None for op, v in c["emit_cmp"]):
                 rep.inconclusive("C13.acc", name, "emission conditions", where=d.where(fn), detail="comparison form not recognised: %s" % sorted(c["emit_cmp"], key=str))
+            elif c["emit_cmp"] < want_cmp:
+                rep.inconclusive("C13.acc", name, "emission conditions", where=d.where(fn),
+                                 detail="only %s of the scheme's counter tests %s are written as tests of the counter (the others are decided some other way)" % (sorted(c["emit_cmp"]), sorted(want_cmp)))
             else:
                 rep.violates("C13.acc", name, "emission conditions", where=d.where(fn),
                              detail="counter is tested with %s, the scheme needs %s" % (sorted(c["emit_cmp"]), sorted(want_cmp)))
@@ -555,6 +600,24 @@ def rule_input(rep, d, fns):
             if t[0] == "call" and t[1][0] == "mem" and t[1][2] in ("size", "length") and t[1][1][0] == "ref" and t[1][1][1] in pnames:
                 return "S"
             return None
+        # counters that start at 0 and are only ever incremented by one: `k != L` (L unsigned, not modified) then means k < L
+        upcount = set()
+        for v in ir.walk_expr(fn):
+            if v.get("kind") == "VarDecl" and ir.ekids(v) and trange.interval(ir.ekids(v)[-1]) == (0, 0):
+                nm = v.get("name")
+                mods_ = []
+                for x in ir.walk_expr(fn):
+                    if x.get("kind") in ("UnaryOperator", "BinaryOperator", "CompoundAssignOperator") and ir.ekids(x):
+                        l_ = ir.strip(ir.ekids(x)[0])
+                        if l_.get("kind") == "DeclRefExpr" and (l_.get("referencedDecl") or {}).get("id") == v.get("id"):
+                            if x.get("kind") == "UnaryOperator" and x.get("opcode") == "++":
+                                mods_.append(True)
+                            elif x.get("kind") == "UnaryOperator" and x.get("opcode") in ("--",):
+                                mods_.append(False)
+                            elif x.get("kind") != "UnaryOperator" and x.get("opcode", "").endswith("=") and x.get("opcode") not in ("==", "!=", "<=", ">="):
+                                mods_.append(False)
+                if mods_ and all(mods_):
+                    upcount.add(nm)
         verdict = {}
         for path in paths:
             for i, st in enumerate(path):
@@ -573,6 +636,10 @@ def rule_input(rep, d, fns):
                         if c[0] == "bin" and c[1] in linear.NEG:
                             op = c[1] if st2[2] else linear.NEG[c[1]]
                             a, b = linear.lin(c[2], symmap), linear.lin(c[3], symmap)
+                            if op == "!=" and a is not None and b is not None:
+                                for x_, y_, o_ in ((uncast(c[2]), b, "<"), (uncast(c[3]), a, ">")):
+                                    if x_[0] == "ref" and x_[1] in upcount:
+                                        op = o_
                             if a is not None and b is not None:
                                 facts += linear.atom_facts(op, a, b)
                 # locals initialised from input.size() are <= S at that point only if never incremented: use as upper bound fact
